@@ -43,6 +43,8 @@ type c07conn struct {
 	tunnelID int64
 	closedBy string // "", "client", "server-api"
 	hs       bool   // sent at least one successful handshake
+	lastType string // type and id of the latest successful handshake of any type
+	lastID   int64
 }
 
 func (c *c07conn) name() string { return c.cl.Name }
@@ -80,14 +82,24 @@ func c07Run(w *simrt.World, tier string) {
 		w.Violationf("C07:harness", "wiring: %v", err)
 		return
 	}
+	// storage faults (a third of the runs): the registry's in-memory consistency must not depend on
+	// the cloud-control / connection-state writes succeeding
+	if c.Intn(3, "store.faults") == 2 {
+		st.FailNum, st.FailDen = 1, 6
+		st.Filter = func(op, key string) bool { return op == "Delete" || op == "Set" }
+		w.Probe("store-faults-enabled")
+	}
 	ids := []int64{1001, 1002, 1003}[:2+c.Intn(2, "nids")]
 	var conns []*c07conn
+	var lastHS *c07conn
+	nconn := 0
 	var hist []string
 	interesting := false
 	log := func(f string, a ...any) { hist = append(hist, fmt.Sprintf("%8s ", w.Now().Truncate(time.Millisecond))+fmt.Sprintf(f, a...)) }
 
 	newConn := func() *c07conn {
-		cc := &c07conn{cl: node.Connect(fmt.Sprintf("t%d", len(conns)), fmt.Sprintf("10.2.0.%d:5000", 1+len(conns)), simnet.LinkConfig{})}
+		nconn++
+		cc := &c07conn{cl: node.Connect(fmt.Sprintf("t%d", nconn-1), fmt.Sprintf("10.2.0.%d:5000", nconn), simnet.LinkConfig{})}
 		conns = append(conns, cc)
 		return cc
 	}
@@ -188,15 +200,39 @@ func c07Run(w *simrt.World, tier string) {
 		return true
 	}
 
+	var oneCurrent func(when string) bool
 	settledOK := func(when string) bool {
 		report = false
-		ok := lookupsWellFormed(when, true) && closedNowhere(when) && evictedAreClosed(when)
+		ok := lookupsWellFormed(when, true) && closedNowhere(when) && evictedAreClosed(when) && oneCurrent(when)
 		report = true
 		if ok {
 			return true
 		}
 		w.Sleep(1100 * time.Millisecond)
-		return lookupsWellFormed(when, true) && closedNowhere(when) && evictedAreClosed(when)
+		return lookupsWellFormed(when, true) && closedNowhere(when) && evictedAreClosed(when) && oneCurrent(when)
+	}
+
+	// oneCurrent: at most one open, registered, authenticated control connection per client id
+	oneCurrent = func(when string) bool {
+		resolve()
+		seen := map[int64]string{}
+		for _, a := range node.SM.GetClientRegistry().ListAuthenticated() {
+			cc := connBySrvID(a.GetConnID())
+			if cc == nil || !transportOpen(cc) || a.GetClientID() <= 0 {
+				continue
+			}
+			// only connections whose latest handshake was a control-type handshake as this client: a tunnel-type
+			// connection of the same client is registered and authenticated too, but is not a control channel
+			if cc.lastType != "control" || cc.lastID != a.GetClientID() {
+				continue
+			}
+			if other, dup := seen[a.GetClientID()]; dup {
+				viol("C07:duplicate:two-open-control-connections-for-one-client", "%s: client %d has two open authenticated control connections registered: %s and %s\n%s", when, a.GetClientID(), other, cc.name(), strings.Join(hist, "\n"))
+				return false
+			}
+			seen[a.GetClientID()] = cc.name()
+		}
+		return true
 	}
 
 	handshake := func(cc *c07conn, id int64, ctype string) {
@@ -204,6 +240,7 @@ func c07Run(w *simrt.World, tier string) {
 		log("%s handshake id=%d type=%s → ok=%v success=%v", cc.name(), id, ctype, ok, ok && resp.Success)
 		if ok && resp.Success {
 			cc.hs = true
+			cc.lastType, cc.lastID = ctype, id
 			if ctype == "control" {
 				if len(cc.ids) > 0 && cc.ids[len(cc.ids)-1] != id {
 					interesting = true
@@ -241,6 +278,13 @@ func c07Run(w *simrt.World, tier string) {
 			}
 		}
 		id := ids[w.Draw(len(ids), "id")]
+		if concurrent && (kind == 5 || kind == 6) && lastHS != nil && lastHS != cc && w.Draw(2, "close.racing-handshake") == 1 {
+			cc = lastHS // close the connection another actor is handshaking on right now
+			w.Probe("close-racing-handshake")
+		}
+		if kind <= 3 {
+			lastHS = cc
+		}
 		switch kind {
 		case 0, 1, 2:
 			handshake(cc, id, "control")
